@@ -21,7 +21,12 @@ def child(scenario):
     life = MLife()
     return [life, MCarry(), MDrain(life), MEscape(), MChild(scenario)]
 
-SETS = {"base": base, "full": full, "crash": crash, "timing": timing, "child": child}
+def healthy(scenario):
+    """Monitors that never look inside a (possibly malformed) definition."""
+    life = MLife()
+    return [life, MDrain(life), MEscape(), MRef(scenario)]
+
+SETS = {"healthy": healthy, "base": base, "full": full, "crash": crash, "timing": timing, "child": child}
 
 def get(name):
     return SETS[name]
